@@ -213,6 +213,8 @@ impl ShardedWriteBuffer {
         shutdown: &AtomicBool,
     ) -> Result<()> {
         let mut buffer = self.buffer.lock();
+        #[cfg(feoxdb_verif)]
+        let _lk_shard = crate::verif::LockSpan::new("shard", 2);
         if shutdown.load(Ordering::Acquire) {
             return Err(FeoxError::ShuttingDown);
         }
@@ -240,6 +242,8 @@ impl ShardedWriteBuffer {
 
     fn drain_entries(&self) -> Vec<WriteEntry> {
         let mut buffer = self.buffer.lock();
+        #[cfg(feoxdb_verif)]
+        let _lk_shard = crate::verif::LockSpan::new("shard", 2);
         let entries: Vec<_> = buffer.drain(..).collect();
         #[cfg(feoxdb_verif)]
         crate::verif::emit("drain", &[], entries.len() as u64, 0, self as *const Self as u64);
@@ -261,6 +265,8 @@ impl ShardedWriteBuffer {
             .map(|entry| entry.record.calculate_size())
             .sum();
         let mut buffer = self.buffer.lock();
+        #[cfg(feoxdb_verif)]
+        let _lk_shard = crate::verif::LockSpan::new("shard", 2);
         #[cfg(feoxdb_verif)]
         crate::verif::emit("requeue", &[], count as u64, failed as u64, self as *const Self as u64);
         for entry in entries.into_iter().rev() {
@@ -420,7 +426,11 @@ impl WriteBuffer {
                 #[cfg(feoxdb_verif)]
                 crate::verif::sched("coord_tick");
 
+                #[cfg(feoxdb_verif)]
+                let _lk_pending = crate::verif::LockSpan::around("retq.pending", 2);
                 let retirements_pending = !retirement_queue.pending.lock().is_empty();
+                #[cfg(feoxdb_verif)]
+                drop(_lk_pending);
                 for (worker_id, channel) in worker_channels.iter().enumerate() {
                     let pending = (worker_id..sharded_buffers.len())
                         .step_by(worker_channels.len())
@@ -732,8 +742,12 @@ fn flush_pending_deletions(
     format: &dyn RecordFormat,
 ) -> Result<bool> {
     let _flush_guard = retirement_queue.flush.lock();
+    #[cfg(feoxdb_verif)]
+    let _lk_flush = crate::verif::LockSpan::new("retq.flush", 2);
     let delete_operations = {
         let mut pending = retirement_queue.pending.lock();
+        #[cfg(feoxdb_verif)]
+        let _lk_pending = crate::verif::LockSpan::new("retq.pending", 2);
         if pending.is_empty() {
             return Ok(false);
         }
@@ -758,6 +772,8 @@ fn flush_pending_deletions(
     }
     let has_retries = !retries.is_empty();
     if has_retries {
+        #[cfg(feoxdb_verif)]
+        let _lk_pending = crate::verif::LockSpan::around("retq.pending", 2);
         retirement_queue.pending.lock().extend(retries);
     }
     result.map(|_| has_retries)
@@ -815,6 +831,8 @@ fn process_deletions(
     if !marker_writes.is_empty() {
         #[cfg(feoxdb_verif)]
         crate::verif::sched("ret_device");
+        #[cfg(feoxdb_verif)]
+        let _lk_device = crate::verif::LockSpan::around("device", 2);
         match disk_io.write().retire_extents(&marker_extents) {
             Ok(()) => {
                 #[cfg(feoxdb_verif)]
@@ -851,6 +869,8 @@ fn process_deletions(
     #[cfg(feoxdb_verif)]
     crate::verif::sched("ret_release");
     let mut free_space_guard = free_space.write();
+    #[cfg(feoxdb_verif)]
+    let _lk_free = crate::verif::LockSpan::new("free", 2);
     let mut group = Vec::with_capacity(releasable.len());
     let mut group_end = 0;
     for entry in releasable {
@@ -984,6 +1004,8 @@ fn process_write_batch(
     let stamp = format_version >= SEQ_TOKEN_MIN_VERSION;
     let has_deletions = !delete_operations.is_empty();
     if has_deletions {
+        #[cfg(feoxdb_verif)]
+        let _lk_pending = crate::verif::LockSpan::around("retq.pending", 2);
         retirement_queue
             .pending
             .lock()
@@ -994,6 +1016,8 @@ fn process_write_batch(
         #[cfg(feoxdb_verif)]
         crate::verif::sched("wb_alloc");
         let mut free_space_guard = free_space.write();
+        #[cfg(feoxdb_verif)]
+        let _lk_free = crate::verif::LockSpan::new("free", 2);
         for index in 0..prepared_writes.len() {
             let sectors_needed = prepared_writes[index].sectors_needed;
             let sector = match prepared_writes[index].sector {
@@ -1025,6 +1049,8 @@ fn process_write_batch(
                             sectors_needed as u64,
                             prepared_writes[index].entry.record.timestamp,
                         );
+                        #[cfg(feoxdb_verif)]
+                        drop(_lk_free);
                         drop(free_space_guard);
                         let _ = release_allocations(free_space, &prepared_writes, stats);
                         retry_entries.extend(prepared_writes.drain(..).map(|write| write.entry));
@@ -1048,6 +1074,8 @@ fn process_write_batch(
         #[cfg(feoxdb_verif)]
         crate::verif::sched("wb_device");
         let mut disk_guard = disk_io.write();
+        #[cfg(feoxdb_verif)]
+        let _lk_device = crate::verif::LockSpan::new("device", 2);
         for write in &prepared_writes {
             mark_reservation_dirty(&write.entry);
         }
@@ -1281,6 +1309,8 @@ fn release_allocations(
 ) -> Result<()> {
     let mut first_error = None;
     let mut free_space_guard = free_space.write();
+    #[cfg(feoxdb_verif)]
+    let _lk_free = crate::verif::LockSpan::new("free", 2);
     for allocation in allocations {
         let Some(sector) = allocation.sector else {
             continue;
@@ -1356,6 +1386,8 @@ fn cleanup_failed_allocations(
     }
 
     let mut free_space = free_space.write();
+    #[cfg(feoxdb_verif)]
+    let _lk_free = crate::verif::LockSpan::new("free", 2);
     release_scrubbed_allocations(&mut free_space, allocations, stats)
 }
 
@@ -1476,7 +1508,11 @@ fn prepare_deferred_record_data(
     }
     let total_size = format.total_size(source.key.len(), source.value_len);
     let sectors = total_size.div_ceil(FEOX_BLOCK_SIZE);
+    #[cfg(feoxdb_verif)]
+    let _lk_device = crate::verif::LockSpan::around("device", 1);
     let mut data = disk_io.read().read_sectors_sync(sector, sectors as u64)?;
+    #[cfg(feoxdb_verif)]
+    drop(_lk_device);
     #[cfg(feoxdb_verif)]
     crate::verif::emit("pread", &source.key, sector, sectors as u64, source.timestamp);
     drop(extent);
